@@ -1,6 +1,7 @@
 //! Verification engine for Artem-Romanenia/o2o (property-based testing and fuzzing).
 pub mod dsl;
 pub mod e2;
+pub mod e2e;
 pub mod plan_enum;
 pub mod plan_flat;
 pub mod plan_flavours;
